@@ -46,8 +46,10 @@ CLAIMS = {
        "Triangle3Buffer/Line2Buffer, channel and writer with the verif hooks as a scheduler gate, into the in-memory "
        "collector and the STL/3MF/DXF/SVG writers; the item sequence read back by independent readers is judged by "
        "PipeRunTrace.tla, and hook-event logs of free-running and gated runs are validated step by step against "
-       "Pipeline.tla (PipelineTrace.tla).",
-  design_ref="DESIGN.md section 6 C11", technique="TLC exhaustive model checking of the pipeline + schedule replay with a hook-based scheduler gate + TLC trace validation of real event logs",
+       "Pipeline.tla (PipelineTrace.tla). Beyond the bounded instances, Apalache discharges an inductive invariant "
+       "(PipeCore.tla, PipeCoreN.tla: 1 and 3 producers, ANY threshold, batch size and number of writes) that implies "
+       "conservation and the at-return count, and TLC checks that Pipeline.tla refines those cores.",
+  design_ref="DESIGN.md section 6 C11", technique="TLC exhaustive model checking of the pipeline + Apalache inductive invariant (unbounded parameters) with a TLC refinement check + schedule replay with a hook-based scheduler gate + TLC trace validation of real event logs",
   note=TB + " Schedules are exhaustive for the stated producer counts/batch sizes; larger runs are covered by event-trace validation only."),
  "C12": dict(
   text="Pipeline.tla with a sink fault: TLC checks termination under fairness for every writer kind x fault position x "
